@@ -500,6 +500,8 @@ func runC15(c *Ctx) {
 	c.Count("membership-type-switch")
 	c.Emit("startup", "stream.Open outcome in a child process vs Backends.startup", []string{"Base.Bytes", "Model.Stream", "Model.Backends", "Corr.CorrStream", "Corr.CorrC15"},
 		"cfg * list (N * doc) * N * N * server * faults * observed", "chk_startup", cs, rs, 60)
+	// "after the bounded retries on re-open": the retry loop of reopenStream against Model/Retry.v
+	runC12Retry(c)
 }
 
 // runC02Wire drives the real cbMetadata (xattr checkpoint documents) against the simulated node.
